@@ -81,25 +81,25 @@ TNextTrace == /\ tid <= Len(Tr) /\ l > Len(Tr[tid]) /\ pc = "idle"
 Diagnose ==
     IF Rec.ev = "raise" THEN Rec.exc
     ELSE IF Rec.ev = "local" THEN
-        (IF pc # "run" \/ p > Len(word) THEN "spec: more local problems than the program has"
-         ELSE IF Rec.kind # word[p].op \/ Rec.i # word[p].i THEN "spec: sweep order: unexpected local problem (kind / site)"
-         ELSE IF Rec.f # sign * word[p].f THEN "spec: wrong time fraction or sign of a local step"
-         ELSE IF ~(Rec.fresh_l /\ Rec.fresh_r) THEN "spec: stale environment block handed to a local problem"
-         ELSE IF ~(Rec.canon_l /\ Rec.canon_r) THEN "spec: local problem not in mixed canonical form"
-         ELSE "spec: local Ritz value above the Rayleigh quotient of the start tensor")
+        (IF Strict /\ (pc # "run" \/ p > Len(word)) THEN "spec: more local problems than the program has"
+         ELSE IF Strict /\ (Rec.kind # word[p].op \/ Rec.i # word[p].i) THEN "spec: sweep order: unexpected local problem (kind / site)"
+         ELSE IF Strict /\ (Rec.f # sign * word[p].f) THEN "spec: wrong time fraction or sign of a local step"
+         ELSE IF Strict /\ (~(Rec.fresh_l /\ Rec.fresh_r)) THEN "spec: stale environment block handed to a local problem"
+         ELSE IF Strict /\ (~(Rec.canon_l /\ Rec.canon_r)) THEN "spec: local problem not in mixed canonical form"
+         ELSE IF Strict THEN "spec: local Ritz value above the Rayleigh quotient of the start tensor" ELSE "a property clause of this event failed (no specific diagnostic)")
     ELSE IF Rec.ev = "end" THEN
-        (IF ~((p = Len(word) + 1) \/ (Rec.hooks_missing /\ p = 1)) THEN "spec: fewer local problems than the program has"
+        (IF Strict /\ (~((p = Len(word) + 1) \/ (Rec.hooks_missing /\ p = 1))) THEN "spec: fewer local problems than the program has"
          ELSE IF Rec.is_dmrg /\ Len(Rec.energies) # Rec.nsteps THEN "number of reported energies differs from the number of sweeps"
-         ELSE IF ~EnergiesOK THEN "spec: reported energy is not the Ritz value of the last local problem of its sweep"
+         ELSE IF Strict /\ (~EnergiesOK) THEN "spec: reported energy is not the Ritz value of the last local problem of its sweep"
          ELSE IF ~Rec.ret_ok THEN "returned value is not the norm of the input state"
          ELSE IF ~Rec.extra_ok THEN Rec.extra_what
-         ELSE IF ~Rec.h_unchanged THEN Tag({"C08", "C10"}) \o "Hamiltonian modified"
-         ELSE IF ~Rec.norm_ok THEN Tag({"C08", "C10"}) \o "norm of the state not conserved / not one"
-         ELSE IF ~Rec.energy_ok THEN Tag({"C08", "C10"}) \o "energy clause violated"
-         ELSE IF ~Rec.dims_ok THEN Tag({"C08"}) \o "bond dimension clause violated"
-         ELSE IF ~Rec.boundary_ok THEN Tag({"C08"}) \o "total quantum numbers changed"
-         ELSE IF ~(Rec.sparse_ok /\ Rec.types_ok) THEN "spec: (clause of C02) block sparsity / charge list clause violated"
-         ELSE "spec: dt / -dt pair does not reduce to the empty word")
+         ELSE IF Own({"C08", "C10"}) /\ ~Rec.h_unchanged THEN Tag({"C08", "C10"}) \o "Hamiltonian modified"
+         ELSE IF Own({"C08", "C10"}) /\ ~Rec.norm_ok THEN Tag({"C08", "C10"}) \o "norm of the state not conserved / not one"
+         ELSE IF Own({"C08", "C10"}) /\ ~Rec.energy_ok THEN Tag({"C08", "C10"}) \o "energy clause violated"
+         ELSE IF Own({"C08"}) /\ ~Rec.dims_ok THEN Tag({"C08"}) \o "bond dimension clause violated"
+         ELSE IF Own({"C08"}) /\ ~Rec.boundary_ok THEN Tag({"C08"}) \o "total quantum numbers changed"
+         ELSE IF Strict /\ (~(Rec.sparse_ok /\ Rec.types_ok)) THEN "spec: (clause of C02) block sparsity / charge list clause violated"
+         ELSE IF Strict THEN "spec: dt / -dt pair does not reduce to the empty word" ELSE "a property clause of this event failed (no specific diagnostic)")
     ELSE "unexpected event"
 TReject == /\ tid <= Len(Tr)
            /\ \/ (HasRec /\ ~ENABLED TStep)
